@@ -528,6 +528,7 @@ func checkC05(c *Check) {
 	}
 	c05PerDomainState(c)
 	c05ADPerServer(c, "R10")
+	c05FuturesByValue(c, "R11")
 }
 
 // R9: a policy's per-message object outlives one destination: the remote target calls PrepareDomain once per
@@ -1127,4 +1128,80 @@ func c05ADPerServer(c *Check, rule string) {
 		}
 	}
 	c.Hold(rule, "ExtResolver.exchange:ad-per-server", r.FI.Decl.Pos(), msg == "" && n > 0, msg)
+}
+
+
+// c05FuturesByValue: one policy object serves every recipient domain and every MX candidate of a message. A lookup
+// started by Prepare* completes a future; the verdict for a domain / connection is read from the future in a field of
+// the object. The goroutine must complete the future its own call created – held in a local – and not whatever the
+// field points to when the lookup is done: if the step between Prepare* and Check* fails (MX lookup error, connection
+// refused) the next Prepare* has replaced the field, the late lookup then decides the NEXT domain's / MX's verdict and
+// that one's own result is dropped ("Future.Set called multiple times").
+func c05FuturesByValue(c *Check, rule string) {
+	c.Rule(rule, "policy lookups complete the future created by their own call: a goroutine never completes a future it reads from a field of the shared policy object at completion time when the enclosing method (re)installs that field", 2)
+	p := c.P
+	const futPkg = modPath + "/framework/future"
+	n := 0
+	for _, fi := range funcsOfPkgs(p, remoteRel) {
+		info := fi.Info()
+		inspectNoLit(fi.Decl.Body, func(x ast.Node) bool {
+			g, ok := x.(*ast.GoStmt)
+			if !ok {
+				return true
+			}
+			lit, ok := g.Call.Fun.(*ast.FuncLit)
+			if !ok {
+				return true
+			}
+			ast.Inspect(lit.Body, func(y ast.Node) bool {
+				call, ok := y.(*ast.CallExpr)
+				if !ok || !isCall(info, call, futPkg+".Future.Set") {
+					return true
+				}
+				n++
+				c.SawFunc(fi.Name())
+				recv := callRecv(call)
+				key := fi.Name() + ":set:" + exprStr(recv)
+				if fv := fieldOf(info, recv); fv != nil {
+					// the field is (re)installed by the enclosing function: a later call replaces it while this lookup runs
+					reinstalled := false
+					ast.Inspect(fi.Decl.Body, func(z ast.Node) bool {
+						if as, ok := z.(*ast.AssignStmt); ok {
+							for _, l := range as.Lhs {
+								if fieldOf(info, l) == fv {
+									reinstalled = true
+								}
+							}
+						}
+						return true
+					})
+					c.Hold(rule, key, call.Pos(), !reinstalled, "the lookup goroutine completes `"+exprStr(recv)+"`, read when the lookup is done, while "+refName(fi.Obj)+" installs a new future there on every call: when the step after it fails before the verdict is read (MX lookup error, connection refused), the next call has replaced the field – this lookup's result then decides the NEXT domain's / MX's verdict and that one's own result is dropped (an enforced MTA-STS policy or TLSA set is silently not applied)")
+					return true
+				}
+				v, isVar := objOf(info, recv).(*types.Var)
+				okLocal := isVar && !v.IsField() && localIn(fi.Decl.Body, v) && !localIn(lit, v) && !assignedMoreThanOnce(info, fi.Decl.Body, v)
+				c.Hold(rule, key, call.Pos(), okLocal, "the future completed by the lookup goroutine is not a local of this call assigned exactly once")
+				return true
+			})
+			return true
+		})
+	}
+	if n < 2 {
+		c.Fail(rule, "lookups", token.NoPos, "undecided: fewer than two asynchronous policy lookups found in the remote target")
+	}
+}
+
+func assignedMoreThanOnce(info *types.Info, body ast.Node, v types.Object) bool {
+	n := 0
+	ast.Inspect(body, func(x ast.Node) bool {
+		if as, ok := x.(*ast.AssignStmt); ok {
+			for _, l := range as.Lhs {
+				if id, ok := ast.Unparen(l).(*ast.Ident); ok && (info.Defs[id] == v || info.Uses[id] == v) {
+					n++
+				}
+			}
+		}
+		return true
+	})
+	return n > 1
 }
